@@ -70,7 +70,7 @@ impl Bitstr {
     }
     // abstract value: the bit sequence, and nothing else
     spec fn view(&self) -> Seq<bool> {
-        Seq::new((self.range.end - self.range.start) as nat, |i: int| bit_at(self.data@, self.range.start + i))
+        bits_of(self.data@, self.range.start as int, self.range.end as int)
     }
 
 //@use bitstr.fns Bitstr::start
@@ -88,6 +88,27 @@ impl Bitstr {
 //@use bitstr.fns Bitstr::slice
 //@use bitstr.fns Bitstr::bits
 //@use bitstr.fns Bitstr::iter8
+//@use bitstr.fns Bitstr::data_mut
+//@use bitstr.fns Bitstr::detach
+//@use bitstr.fns Bitstr::append_bits_mut
+//@use bitstr.fns Bitstr::append
+//@use bitstr.fns Bitstr::insert
+//@use bitstr.fns Bitstr::invert
+//@use bitstr.fns "impl From<Vec<u8>> for Bitstr"::from
+//@use bitstr.fns "impl<'a> From<&'static [u8]> for Bitstr"::from
+}
+
+//@type src/bitstr.rs struct BitvecBuilder
+
+impl BitvecBuilder {
+    spec fn inv(&self) -> bool {
+        &&& self.len <= 8 * self.data@.len()
+        &&& self.data@.len() == ubi(self.len as int)
+        &&& forall|p: int| self.len <= p < 8 * self.data@.len() ==> !bit_at(self.data@, p)
+    }
+    spec fn bits(&self) -> Seq<bool> { bits_of(self.data@, 0, self.len as int) }
+//@use bitstr.fns BitvecBuilder::append_bit
+//@use bitstr.fns BitvecBuilder::finish
 }
 
 //@type src/bitstr.rs struct Bits
